@@ -233,13 +233,17 @@ fn check_incremental(idx: u64, l: &mut Local) {
     };
     l.states += 1;
     let suffixes = ["?a=1", "?b=1", "?a=1&b=2", "?utm=1&a=2", "?c=3&utm=4", "?c=3"];
-    for step in 0..order.len() {
-        if step > 0 {
+    for step in 0..=order.len() {
+        if step == order.len() {
+            // last step: the explicit optimisation of the live blocker (the removeparam rules must
+            // come out of it one by one, each with its own parameter name)
+            blocker.optimize();
+        } else if step > 0 {
             if let Some(f) = parse(order[step]) {
                 let _ = blocker.add_filter(f);
             }
         }
-        let loaded = &order[..=step];
+        let loaded = &order[..=step.min(order.len() - 1)];
         for suffix in suffixes {
             for ty in TYPES {
                 for src in SOURCES {
